@@ -341,6 +341,31 @@ class Crate:
         self.fname = fname
         self.bodies = [Body(b, self, facts) for b in doc["bodies"]]
         self.by_id = {b.id: b for b in self.bodies}
+        # normalise calls through a function value: when the callee's type is a fn item (`let f = T::new; f()`), the
+        # target is known; otherwise the call is marked <indirect> so that rules can treat it uniformly
+        by_path = {}
+        for b in self.bodies:
+            by_path.setdefault(b.path, b)
+        for b in self.bodies:
+            blocks = list(b.blocks)
+            for p in b.d.get("promoted", []):
+                blocks += p["blocks"]
+            for blk in blocks:
+                f = blk["t"].get("call") if isinstance(blk.get("t"), dict) else None
+                if isinstance(f, dict) and "def" not in f:
+                    fd = (f.get("fty") or {}).get("fndef") if isinstance(f.get("fty"), dict) else None
+                    if fd:
+                        f["def"] = fd
+                        f["name"] = fd.split("::")[-1]
+                        f["substs"] = (f.get("fty") or {}).get("args") or []
+                        tgt = by_path.get(fd)
+                        if tgt is not None:
+                            f["local"] = True
+                            f["id"] = tgt.id
+                        f["via_value"] = True
+                    else:
+                        f["def"] = "<indirect>"
+                        f["name"] = "<indirect>"
         self.impls = [i for i in doc["impls"] if "trait_decl" not in i]
         self.trait_decls = {i["trait_decl"]: i for i in doc["impls"] if "trait_decl" in i}
         self.adts = doc["adts"]
